@@ -47,7 +47,92 @@ func c11SelfTest() error {
 			return fmt.Errorf("ref.X25519 KAT mismatch: %x", got)
 		}
 	}
+	// subgroup orders used by the backwards construction: [L]·9 and [4·L']·2 are at infinity
+	if _, z := ref.Ladder(ref.L25519(), bigI(9)); z.Sign() != 0 {
+		return fmt.Errorf("ref.Ladder: [L]·9 is not at infinity")
+	}
+	if _, z := ref.Ladder(new(big.Int).Lsh(ref.LTwist25519(), 2), bigI(2)); z.Sign() != 0 {
+		return fmt.Errorf("ref.Ladder: [4L']·2 is not at infinity")
+	}
 	return nil
+}
+
+// c11StructuredTarget draws a 32-byte value below p whose 64-bit words (or a drawn byte prefix /
+// suffix) are zero, all-ones or tiny: the shapes on which a word-wise zero test, comparison or carry
+// of the RESULT goes wrong.
+func c11StructuredTarget(t *rapid.T) ([]byte, string) {
+	u := make([]byte, 32)
+	label := ""
+	switch rapid.IntRange(0, 2).Draw(t, "targetShape") {
+	case 0:
+		for w := 0; w < 4; w++ {
+			switch rapid.IntRange(0, 3).Draw(t, "word") {
+			case 0:
+				label += "0"
+			case 1:
+				u[8*w] = byte(rapid.IntRange(1, 255).Draw(t, "tiny"))
+				label += "t"
+			case 2:
+				for i := 0; i < 8; i++ {
+					u[8*w+i] = 0xff
+				}
+				label += "f"
+			default:
+				copy(u[8*w:8*w+8], gen.RandBytes(t, "w", 8))
+				label += "r"
+			}
+		}
+		label = "words=" + label
+	case 1:
+		n := rapid.IntRange(1, 31).Draw(t, "zeroPrefix")
+		copy(u[n:], gen.RandBytes(t, "rest", 32-n))
+		if n < 32 && u[n] == 0 {
+			u[n] = 1
+		}
+		label = fmt.Sprintf("zero-prefix=%d", n)
+	default:
+		n := rapid.IntRange(1, 31).Draw(t, "zeroSuffix")
+		copy(u[:32-n], gen.RandBytes(t, "rest", 32-n))
+		if u[31-n] == 0 {
+			u[31-n] = 1
+		}
+		label = fmt.Sprintf("zero-suffix=%d", n)
+	}
+	u[31] &= 0x7f
+	return u, label
+}
+
+// c11Backwards builds (scalar, point) such that the RFC 7748 result is the structured target: the
+// target must lie in the prime-order subgroup of the curve or of its twist (else ok=false), and then
+// point = [clamp(scalar)^-1 mod order]·target.
+func c11Backwards(scalar, target []byte) (point []byte, where string, ok bool) {
+	p := ref.P25519()
+	u0 := ref.LEInt(target)
+	if u0.Sign() == 0 || u0.Cmp(p) >= 0 {
+		return nil, "", false
+	}
+	var order *big.Int
+	if _, z := ref.Ladder(ref.L25519(), u0); z.Sign() == 0 {
+		order, where = ref.L25519(), "curve"
+	} else if _, z := ref.Ladder(ref.LTwist25519(), u0); z.Sign() == 0 {
+		order, where = ref.LTwist25519(), "twist"
+	} else {
+		return nil, "", false
+	}
+	k := make([]byte, 32)
+	copy(k, scalar)
+	k[0] &= 248
+	k[31] &= 127
+	k[31] |= 64
+	inv := new(big.Int).ModInverse(ref.LEInt(k), order)
+	if inv == nil {
+		return nil, "", false
+	}
+	x, fin := ref.LadderAffine(inv, u0)
+	if !fin {
+		return nil, "", false
+	}
+	return ref.IntLE(x, 32), where, true
 }
 
 func isZero(b []byte) bool {
@@ -350,6 +435,43 @@ func TestC11(t *testing.T) {
 		}
 		c.Case(true, "history|"+shape, "history:reused-buffers")
 	})
+	// Results with structure: inputs are built backwards so that the RFC 7748 value itself has zero,
+	// all-ones or tiny 64-bit words (or a long zero prefix / suffix).  Random inputs produce such a
+	// value with probability 2^-64 and less, so a wrong word-wise zero test or final carry on the
+	// OUTPUT side only shows here.
+	retries := 0
+	rapid.Check(t, func(rt *rapid.T) {
+		scalar, sc := c11ScalarClass(rt)
+		var target, point []byte
+		var shape, where string
+		for try := 0; ; try++ {
+			if try == 64 {
+				rt.Skip("no structured target in a prime-order subgroup within 64 draws")
+			}
+			var ok bool
+			target, shape = c11StructuredTarget(rt)
+			if point, where, ok = c11Backwards(scalar, target); ok {
+				break
+			}
+			retries++
+		}
+		if got := ref.X25519(scalar, point); !bytes.Equal(got, target) {
+			c.Inconclusive(fmt.Sprintf("backwards construction is inconsistent: X25519(%x,%x)=%x, target %x", scalar, point, got, target))
+			rt.Fatalf("VF-INCONCLUSIVE: backwards construction inconsistent")
+		}
+		if rapid.Bool().Draw(rt, "topbit") {
+			point[31] |= 0x80
+		}
+		if err := c11Check(scalar, point); err != nil {
+			rt.Fatalf("VF-VIOLATION: property=C11 (result constructed as %s on the %s) %v", shape, where, err)
+		}
+		c.Case(true, "constructed|"+shape+"|"+where+"|"+sc, "result=structured:"+where, "result-shape:"+strings.SplitN(shape, "=", 2)[0])
+		if c.WantSample() {
+			c.Sample(map[string]string{"scalar": hex.EncodeToString(scalar), "u": hex.EncodeToString(point), "result": hex.EncodeToString(target), "class": "constructed " + shape + " " + where})
+		}
+	})
+	_ = retries
+	c.Assumption("backwards construction: structured targets outside both prime-order subgroups (about 13 of 16) are redrawn, not counted as cases")
 	// full table: every low-order encoding (and its alias / top-bit form) × fixed scalars
 	n := 0
 	scalars := [][]byte{make([]byte, 32), bytes.Repeat([]byte{0xff}, 32), unhex("a546e36bf0527c9d3b16154b82465edd62144c0ac1fc5a18506a2244ba449ac4"), unhex("0100000000000000000000000000000000000000000000000000000000000000")}
